@@ -65,6 +65,7 @@ RX_SIMSTATES = re.compile(r"The number of states generated: (\d+)")
 RX_CASE = re.compile(r'^<<"@@CASE", "(.*)">>$')
 RX_BAD = re.compile(r'^<<"@@BAD", "(.*)">>$')
 RX_CRASH = re.compile(r'^<<"@@CRASH", "(.*)">>$')
+RX_DRIFT = re.compile(r'^<<"@@DRIFT", "(.*)">>$')
 RX_ERR = re.compile(r"^Error: |TLC threw|StackOverflowError|OutOfMemoryError|Exception in thread")
 
 
@@ -167,7 +168,25 @@ def sample_cases(ctx, stage, cases):
         for c in cases:
             out.extend(exp(c, ctx))
         cases = out
-    if lim and len(cases) > lim:
+    strat = stage.get("stratify")
+    if lim and len(cases) > lim and strat:
+        rnd = random.Random(ctx["seed"] * 1000003 + 7)
+        groups = {}
+        for c in cases:
+            groups.setdefault(strat(c), []).append(c)
+        quota = max(1, lim // len(groups))
+        picked = []
+        spare = []
+        for k in sorted(groups):
+            g = groups[k]
+            rnd.shuffle(g)
+            picked.extend(g[:quota])
+            spare.extend(g[quota:])
+        rnd.shuffle(spare)
+        picked.extend(spare[: max(0, lim - len(picked))])
+        cases = picked
+        ctx["exhaustive"] = False
+    elif lim and len(cases) > lim:
         rnd = random.Random(ctx["seed"] * 1000003 + 7)
         small = stage.get("always_small", 0)
         keep = [c for c in cases if len(c.get("nodes", [])) <= small] if small else []
@@ -213,6 +232,18 @@ def validate(ctx, stage, shard_paths, tag):
                           heap=tr.get("heap", "3g"), env={"TRACE_FILE": path}, timeout=tr.get("timeout", 3600), tag="val")
         return path, rc, out
 
+    # merge small shards: one TLC start per ~8 files is enough
+    nval = stage.get("validators", 8)
+    if len(shard_paths) > nval:
+        merged = []
+        for k in range(nval):
+            mp = os.path.join(os.path.dirname(shard_paths[0]), "merged-%s-%02d.ndjson" % (tag, k))
+            with open(mp, "wb") as out:
+                for p in shard_paths[k::nval]:
+                    with open(p, "rb") as f:
+                        shutil.copyfileobj(f, out)
+            merged.append(mp)
+        shard_paths = merged
     bad, crashes = [], []
     vstates = 0
     t0 = time.time()
@@ -232,6 +263,12 @@ def validate(ctx, stage, shard_paths, tag):
                 m = RX_CRASH.match(line)
                 if m:
                     crashes.append(json.loads(tla_unquote(m.group(1))))
+                    continue
+                m = RX_DRIFT.match(line)
+                if m:
+                    ctx["drift"] += 1
+                    if len(ctx["drift_samples"]) < 5:
+                        ctx["drift_samples"].append(json.loads(tla_unquote(m.group(1))))
                     continue
                 if line.startswith('<<"@@ACCEPTED"'):
                     accepted = True
@@ -378,7 +415,7 @@ def new_ctx(root, prop, tier, seed):
     return dict(root=root, prop=prop, tier=tier, seed=seed, work=work, states=0, transitions=0, sim_states=0,
                 trace_states=0, evaluations=0, traces=0, crashes=0, hangs=0, unreproduced=0, counter={},
                 samples=[], violations=[], known_lines=[], known_hits=0, design_errors=[], exhaustive=True,
-                cases_generated=0, extra={})
+                cases_generated=0, extra={}, drift=0, drift_samples=[])
 
 
 def check(root, props, prop, tier, seed):
@@ -403,6 +440,9 @@ def check(root, props, prop, tier, seed):
             raise Infra("design-level TLC run reported errors: " + json.dumps(ctx["design_errors"])[:1500])
         for l in ctx["known_lines"]:
             log(l)
+        if ctx["drift"]:
+            log("DRIFT: %d model-vs-code differences outside the property predicates (not a violation), e.g. %s" %
+                (ctx["drift"], json.dumps(ctx["drift_samples"][:2])[:600]))
         for v in ctx["violations"]:
             log("VIOLATION property=%s replay=%s" % (prop, v["replay"]))
             log("  (%s / %s, %d runs)" % (v["inv"], v["class"], v["runs"]))
@@ -441,6 +481,8 @@ def write_evidence(root, cfg, ctx, wall):
         "unreproduced": ctx["unreproduced"],
         "known_finding_hits": ctx["known_hits"],
         "counters": ctx["counter"],
+        "model_drift_events": ctx["drift"],
+        "model_drift_samples": ctx["drift_samples"],
     }
     cov.update(ctx.get("extra", {}))
     ev = {
